@@ -1,7 +1,7 @@
 // C09 (gradient-boosting objectives): bias, scale and gradient functions equal their definitions
 //   bias:  mean_i loss(t_i, b)                 scale: mean_i loss(t_i, s_i + x[cluster_i] * w_i)  (unassigned samples unscaled)
 //   grads: per-sample loss gradients, value = mean loss      each with the matching gradient
-// config: n=<samples>;loss=<mse|mae|m-hinge>;batch=<b>;tk=<target kind r|s>;sub=<0 all samples | 1 subset with repetition>
+// config: n=<samples>;loss=<mse|mae|m-hinge>;batch=<b>;tk=<target kind r|s>;sub=<0 all samples | 1 subset with repetition | 2 strict subset (fewer samples than the dataset)>
 #include "hdata.h"
 #include <nano/dataset/iterator.h>
 #include <nano/gboost/function.h>
@@ -39,12 +39,19 @@ extern "C" void sym_body()
     dataset_t ds(src, setup_workers(cfgi("threads", 1), cfgi("sched", 0), cfgi("arb", -1)));
     add_identity_generators(ds);
     indices_t samples = all_samples(n);
-    if (cfgi("sub", 0))
+    if (cfgi("sub", 0) == 1)
     {
         samples.resize(3);
         samples(0) = n - 1;
         samples(1) = 0;
         samples(2) = n - 1;
+    }
+    else if (cfgi("sub", 0) == 2)
+    {
+        // a STRICT subset (fewer samples than the dataset holds): the means are over the iterator's samples, not the dataset's
+        samples.resize(n > 2 ? 2 : 1);
+        samples(0) = 0;
+        if (n > 2) samples(1) = n - 1;
     }
     const auto m     = samples.size();
     auto       loss  = loss_t::all().get(lid);
